@@ -14,5 +14,8 @@ open Bec2Verif.C17
 #print axioms affine_add_correct
 #print axioms affine_double_correct
 #print axioms affine_neg_correct
+#print axioms inverse_complete
+#print axioms mul_total
+#print axioms mulAdd_total
 #print axioms curveOK_23
 #print axioms two_ne_zero_of_odd
